@@ -237,6 +237,12 @@ Fixpoint plain_toml_gen (lit : bool) (content : bytes) (n : node) : bool :=
   let 'Node kind _ sb eb _ _ _ ch := n in
   plain_here lit content kind sb eb
   && (fix go (l : list node) : bool := match l with [] => true | c :: t => plain_toml_gen lit content c && go t end) ch.
+(* the same, except that quoted keys are let through (the finding C04-toml-quoted-key: entries below a quoted key are
+   not found - which can only make the checked list shorter, see Run.ManifestOracle.pyproject_oracle) *)
+Fixpoint plain_toml_nq (lit : bool) (content : bytes) (n : node) : bool :=
+  let 'Node kind _ sb eb _ _ _ ch := n in
+  (beq kind tk_quoted_key || plain_here lit content kind sb eb)
+  && (fix go (l : list node) : bool := match l with [] => true | c :: t => plain_toml_nq lit content c && go t end) ch.
 Notation plain_toml := (plain_toml_gen false).
 Notation plain_pyproject := (plain_toml_gen true).
 
